@@ -38,16 +38,19 @@ Definition tok_of (c : ccase) (s : string) : list (string * string) := assoc [] 
 
 (* the harmless commands the generators use: echo (prints its arguments), touch / true (print nothing),
    anything else fails (false, or no such program) *)
-Definition sh_direct (cmd : string) : option string :=
-  let (c, args) := split_command (trim_space cmd) in
+(* exec.Command(cmd, args...) after util.SplitCommand: the program is the text before the FIRST space (a leading
+   space gives the empty program, which cannot be started); a shell skips leading blanks *)
+Definition run_prog (c : string) (args : list string) : option string :=
   if String.eqb c "echo" then Some (join " " args)
   else if String.eqb c "touch" || String.eqb c "true" then Some ""
   else None.
+Definition sh_direct (cmd : string) : option string := let (c, args) := split_command cmd in run_prog c args.
+Definition sh_shell (script : string) : option string :=
+  match fields script with [] => Some "" | c :: args => run_prog c args end.
 (* parameters are substituted through `sh -c <text>`: an empty script succeeds with no output *)
 Definition sh_model (cmd : string) : option string :=
   if prefixb "sh -c " cmd then
-    let script := drop 6 cmd in
-    if is_empty (trim_space script) then Some "" else sh_direct script
+    sh_shell (drop 6 cmd)
   else sh_direct cmd.
 Definition strip_sh (cmd : string) : string := if prefixb "sh -c " cmd then drop 6 cmd else cmd.
 
